@@ -1,6 +1,7 @@
 package checks
 
 import (
+	"bytes"
 	"encoding/json"
 	"fmt"
 
@@ -216,6 +217,9 @@ func init() {
 }
 
 func evalC11Decode(c *engine.Ctx, f decodeFn, t ref.Transform, wire bool) {
+	if wire && t.HasAttr && t.AType >= 0x8000 {
+		return // the wire field has 15 bits: such a type exists only in a caller's own struct (direct decode)
+	}
 	c.Evals++
 	cs := func() c11Case { return c11Case{K: "decode", Fn: f.name, T: t, Wire: wire} }
 	lt := libTransform(t)
@@ -301,6 +305,11 @@ func c11AttrClasses(t uint8, id uint16, thorough bool) []ref.Transform {
 	}
 	for _, at := range []uint16{0, 13, 15, 0x7fff} {
 		out = append(out, tvv(at, 128))
+	}
+	// attribute types that only a caller's own struct can hold (the wire field has 15 bits): the format bit inside
+	// the type field is not "type 14"
+	for _, at := range []uint16{0x800e, 0x808e, 0xc00e, 0xff0e, 0xffff} {
+		out = append(out, tvv(at, 128), tvv(at, 192), tvv(at, 256))
 	}
 	ks := []int{1, 2, 255}
 	if thorough || (t == 1 && id == ref.EncrAESCBC) {
@@ -635,6 +644,40 @@ func c11AllInOne(c *engine.Ctx) {
 		}
 	}
 	c.Count("all_in_one_child_payloads", int64(len(child)))
+	// one payload offering Child SA proposals (each with its SPI) and IKE proposals (without) side by side, in both orders
+	for order := 0; order < 2; order++ {
+		c.Evals++
+		sa := &message.SecurityAssociation{}
+		list := append(append([]*message.Proposal(nil), child[:3]...), ike[:3]...)
+		if order == 1 {
+			list = append(append([]*message.Proposal(nil), ike[:2]...), append(child[:2], ike[2])...)
+		}
+		for i, p := range list {
+			p.ProposalNumber = uint8(i + 1)
+			sa.Proposals = append(sa.Proposals, p)
+		}
+		r := &message.SecurityAssociation{}
+		var err error
+		var b []byte
+		if pi := engine.Catch(func() {
+			if b, err = sa.Marshal(); err == nil {
+				err = r.Unmarshal(b)
+			}
+		}); pi != nil {
+			c.Violate(pi.Sig(), "SA payload mixing proposals with and without SPI panics: "+pi.Value, cs)
+			return
+		}
+		if err != nil || len(r.Proposals) != len(list) {
+			c.Violate("advertised/mixed-spi-sizes/wire-refused", fmt.Sprintf("an SA payload offering advertised Child SA proposals (4-octet SPI) and IKE proposals (no SPI) side by side (order %d, %d octets) does not survive the wire: %v", order, len(b), err), cs)
+			return
+		}
+		for i := range list {
+			if engine.Dump(r.Proposals[i].EncryptionAlgorithm) != engine.Dump(list[i].EncryptionAlgorithm) || !bytes.Equal(r.Proposals[i].SPI, list[i].SPI) {
+				c.Violate("advertised/mixed-spi-sizes/not-faithful", fmt.Sprintf("proposal %d of a payload mixing SPI sizes (order %d) comes back different", i+1, order), cs)
+				return
+			}
+		}
+	}
 }
 
 func c11AdvertisedPass(c *engine.Ctx, pass int) {
